@@ -14,6 +14,7 @@ ID = "C04"
 LEVEL = "exploration"
 CONTRACTS = True  # icontract postconditions on AlignedStream.read/peek/seek fire during this workload too
 STEP_BUDGET = 3_000_000  # line events per case; a case that exceeds it is reported as non-termination
+HANDLE_CLOSE_CHECK = True
 ANCHOR_FILES = ["dissect/hypervisor/disk/vhd.py"]
 RULE = (
     "VHD images written by an independent writer from a content model: fixed disks with the 512-byte and the "
